@@ -347,6 +347,23 @@ def c12(ctx):
                 # an unlisted exception reaches the caller unchanged
                 if stop[0] != "raised" or stop[1] != impl.exc_json(exc):
                     res.fail("unlisted-exception-swallowed", "conforms raises %s but iter_errors gave %r" % (type(exc).__name__, stop), case)
+        # monitor 3: against the registered function itself
+        if fco is not None and name in fco.checkers:
+            func, raises = fco.checkers[name]
+            try:
+                r0 = func(inst)
+                raised0 = None
+            except Exception as exc:        # noqa: BLE001
+                raised0 = exc
+            if raised0 is None:
+                if stop[0] != "done" or bool(fmt_errs) != (not r0):
+                    res.fail("format-vs-function:result", "the function returned %r but iter_errors gave %d format errors, stop %r" % (r0, len(fmt_errs), stop), case)
+            elif raises and isinstance(raised0, raises):
+                if stop[0] != "done" or not fmt_errs or type(fmt_errs[0].cause) is not type(raised0):
+                    res.fail("format-vs-function:listed-exception", "the function raised the listed %s but the error/cause is missing" % type(raised0).__name__, case)
+            else:
+                if stop[0] != "raised" or stop[1] != impl.exc_json(raised0):
+                    res.fail("format-vs-function:unlisted-exception", "the function raised the unlisted %s but iter_errors gave %r" % (type(raised0).__name__, stop), case)
         # ---- correspondence (messages, causes, stop)
         m = corr.model_val(ctx.drv.run("VAL", model_case(case), oracle_mod.Oracle(fmt=answer)))
         i = {"errs": [impl.err_json(e) for e in errs], "stop": stop}
